@@ -48,6 +48,15 @@ def starts(tier):
     pcts = [i * 12.5 for i in range(9)] if tier == 'thorough' else [0, 12.5, 50, 87.5, 100]
     for r, g, b in itertools.product(pcts, repeat=3):
         out.append(('rgb', 'units rgb red %s green %s blue %s kelvin 2700 duration 1.5 time 1.5' % (fmt(r), fmt(g), fmt(b))))
+        # the same colour with stale values in the registers the current mode does not use
+        out.append(('rgb', 'hue 200 saturation 45 brightness 35 units rgb red %s green %s blue %s kelvin 2700 duration 1.5 time 1.5'
+                    % (fmt(r), fmt(g), fmt(b))))
+    for h in (0, 7.5, 120, 352.5):
+        for sat, b in ((0, 50), (100, 100), (37.5, 62.5)):
+            out.append(('logical', 'red 90 green 10 blue 60 hue %s saturation %s brightness %s kelvin 2700 duration 1.5 time 1.5'
+                        % (fmt(h), fmt(sat), fmt(b))))
+            out.append(('raw', 'units rgb red 90 green 10 blue 60 units raw hue %d saturation %d brightness %d kelvin 2700 duration 1500 time 1500'
+                        % (int(h / 360 * 65535), int(sat / 100 * 65535), int(b / 100 * 65535))))
     return out
 
 
